@@ -181,6 +181,27 @@ def strong_adders(ctx):
     return sorted(out)
 
 
+def upgrade_helpers(ctx):
+    """RcInner methods returning bool that are called from Option-returning API functions of
+    strong.rs / weak.rs (the `upgrade` role), whether or not they (still) add to the count."""
+    out = set()
+    for name, b in ctx.prog.bodies.items():
+        if b.kind == "closure" or not (b.file().endswith("weak.rs") or b.file().endswith("strong.rs")):
+            continue
+        if not b.locals[0]["ty"].startswith("std::option::Option<"):
+            continue
+        for (bi, t, c) in b.calls():
+            tg = c.target or ""
+            if tg.startswith("utils::RcInner::<T>::") and tg in ctx.prog.bodies and \
+                    ctx.prog.bodies[tg].locals[0]["ty"] == "bool":
+                out.add(tg)
+    return out
+
+
+def inc_functions(ctx):
+    return sorted(set(strong_adders(ctx)) | upgrade_helpers(ctx))
+
+
 def weak_adders(ctx):
     out = {}
     for a in ctx.scan_accesses():
@@ -214,7 +235,7 @@ def _added(ctx, path, field):
 def rule_token(ctx):
     r = RuleResult("CW-TOKEN", ["C01", "C05", "C02"],
                    "an increment that observes strong==0 (not destructed) adds share+1; with strong>0 adds share")
-    fns = strong_adders(ctx)
+    fns = inc_functions(ctx)
     for f in fns:
         r.functions.add(f)
         by_class = {"zero": set(), "pos": set()}
@@ -273,7 +294,7 @@ def rule_token(ctx):
 def rule_inc_fail_on_destructed(ctx):
     r = RuleResult("CW-INC-FAIL-ON-DESTRUCTED", ["C05"],
                    "strong-adding functions fail exactly when DESTRUCTED was observed; callers create an owner only on success")
-    fns = strong_adders(ctx)
+    fns = inc_functions(ctx)
     for f in fns:
         r.functions.add(f)
         for p in ctx.paths(f):
@@ -418,11 +439,30 @@ def rule_split_inc(ctx):
                    "a from-zero increment made of several RMWs is only called through a handle that excludes a "
                    "concurrent run of the pending attempt")
     cands = {}
-    for f in set(strong_adders(ctx)) | set(weak_adders(ctx)):
+    adders = set(strong_adders(ctx)) | set(weak_adders(ctx))
+    for f in adders:
         sf = _split_fields(ctx, f)
         if sf:
             cands[f] = sf
     n = 0
+
+    def outside_callers(f, seen):
+        """call sites outside utils.rs reaching f, through RcInner wrappers inside utils.rs"""
+        out = []
+        for (b, bi, t, c) in ctx.prog.callers_of(f):
+            if b.file().endswith("utils.rs"):
+                if b.name.startswith("utils::RcInner::<T>::") and b.name not in seen and b.kind != "closure" \
+                        and b.name not in (TRY_DESTRUCT, TRY_DEALLOC, DEC_STRONG, DEC_WEAK):
+                    seen.add(b.name)
+                    out.extend(outside_callers(b.name, seen))
+            else:
+                out.append((b, bi))
+        return out
+    allsites = set()
+    for f in adders:
+        for (b, bi) in outside_callers(f, {f}):
+            allsites.add((b.name, bi))
+    nall = len(allsites)
     for f, fields in sorted(cands.items()):
         r.functions.add(f)
         # transitive callers through thin wrappers whose receiver is their own self.ptr
@@ -435,6 +475,9 @@ def rule_split_inc(ctx):
                     continue
                 seen.add((b.name, bi))
                 if b.file().endswith("utils.rs"):
+                    if b.name.startswith("utils::RcInner::<T>::") and b.kind != "closure" \
+                            and b.name not in (TRY_DESTRUCT, TRY_DEALLOC, DEC_STRONG, DEC_WEAK):
+                        work.append((b.name, None))   # a wrapper inside utils.rs: its callers inherit the obligation
                     continue
                 for p in ctx.paths(b.name):
                     ev = [e for e in p.events if e.kind == "call" and e.target == g and e.bb == bi]
@@ -453,7 +496,8 @@ def rule_split_inc(ctx):
                                       "prevent the pending destruction attempt from running between the two RMWs"
                                       % (field, cls), ev[0].loc())
                     break
-    r.require(n, 5, "call sites of split increments")
+    r.notes.append("split-increment functions: %s" % {k: sorted(v) for k, v in cands.items()})
+    r.require(nall, 8, "call sites of count-adding functions outside utils.rs")
     return r
 
 
@@ -917,8 +961,8 @@ def rule_deferred_only(ctx):
             if not ok:
                 r.violate(b.name, "call:" + target.split("::")[-1],
                           "%s must only run as an EBR-deferred closure; %s" % (target.split("::")[-1], why), b.loc(bi))
-        if len(callers) < floor:
-            raise AnalysisError("CW-DEFERRED-ONLY: %s has %d callers, expected >= %d" % (target, len(callers), floor))
+        if len(callers) < 1:
+            raise AnalysisError("CW-DEFERRED-ONLY: %s has no callers (anchor lost?)" % target)
     for (b, bi, t, c) in prog.callers_of(DISPOSE):
         n += 1
         ok = b.name == TRY_DESTRUCT
@@ -1126,7 +1170,8 @@ def rule_cascade(ctx):
         les = [e for e in p.events if e.kind == "cond" and isinstance(e.term, tuple) and e.term[0] == "call"
                and norm(e.term[1]) == "utils::Modular::le"]
         capped = any(e.kind == "cond" and isinstance(e.term, tuple) and e.term[0] == "bin" and e.term[1] in ("Ge", "Gt")
-                     and e.term[2] == ("arg", 2, "depth") and e.value == 1 for e in p.events)
+                     and e.term[2] == ("arg", 2, "depth") and e.value == 1 and (const_of(e.term[3]) or 0) >= 2
+                     for e in p.events)
         if pops:
             decisions += 1
             good = None
@@ -1148,6 +1193,19 @@ def rule_cascade(ctx):
             elif good < 2:
                 rd.violate(f, "decision", "age threshold %d < 2: a reader pinned one epoch behind can still hold the node" % good,
                            p.events[pops[0]].loc())
+        elif p.exit[0] == "return" and les and not capped and any(e.value == 1 for e in les):
+            # age test passed but no destruction: only legal as "revived by an upgrade": strong>0 observed on
+            # the node itself, token consumed by exactly one decrement_strong(node, 1)
+            decisions += 1
+            own_preds = [q for q in ctx.predicates(p) if q["field"] == "strong" and q["rel"] == "!=" and
+                         const_of(q["rhs"]) == 0 and not q["exp"]]
+            decs = [e for e in p.events if e.kind == "call" and e.target == DEC_STRONG
+                    and ptr_root(e.args[0]) == ("arg", 1, p.body.local_name(1))]
+            okd = bool(own_preds) and len(decs) == 1 and const_of(decs[0].args[1]) == 1 and not defers
+            rd.instance("revived non-root: strong>0 -> consume token, no destruction", okd)
+            if not okd:
+                rd.violate(f, "revived-arm", "a non-root node passes the age test but is neither destructed nor is its "
+                           "token consumed by exactly one decrement_strong(node, 1)", les[0].loc())
         elif p.exit[0] == "return" and les and not capped:
             # the arm that does not reclaim must defer try_destruct on this node
             decisions += 1
